@@ -123,9 +123,16 @@ type bo struct {
 	parent  int  // harness' own record of Fork (-1: none); Clone copies the record of its source
 	tainted bool // ghost, same rule as the model, computed from the implementation's maxSleep values
 	retired bool
+	// the harness' OWN ledger of the sleeps it observed on this back-offer (ms; closure's logged sleep cut by the
+	// per-call maximum), as the property defines the accounting: since creation / the last Reset, split by
+	// excluded / ordinary kind, inherited on Clone/Fork, replaced by the fork's on a merge.  Budget verdicts are judged
+	// on this ledger, never on GetTotalSleep; the implementation's counters are cross-checked against it.
+	ledNon, ledExcl int
+	ledMS, ledTimes map[string]int // per kind, cumulative (Reset keeps them, like backoffSleepMS / backoffTimes)
 }
 
 type snap struct {
+	ledNon, ledExcl        int // the harness ledger at the time of the snapshot
 	max, total, excl, errs int
 	ms, times              map[string]int
 	cfgs                   []string
@@ -144,6 +151,7 @@ type lastRec struct {
 	obsBase  int  // base / attempts of the closure as logged by the code
 	obsAtt   int
 	errK     string
+	ledger   string // result of ledgerCheck right after the op ("" = consistent)
 	pre      snap // of id
 	pre2     snap // of id2 (merge: forked)
 	post     snap // of id
@@ -193,7 +201,8 @@ func copyMap(m map[string]int) map[string]int {
 func takeSnap(x *bo) snap {
 	mx, tot, ex := retry.VerifBudget(x.b)
 	s := snap{max: mx, total: tot, excl: ex, errs: x.b.ErrorsNum(), ms: copyMap(x.b.GetBackoffSleepMS()),
-		times: copyMap(x.b.GetBackoffTimes()), cfgs: retry.VerifConfigNames(x.b), done: x.b.GetCtx().Err() != nil}
+		times: copyMap(x.b.GetBackoffTimes()), cfgs: retry.VerifConfigNames(x.b), done: x.b.GetCtx().Err() != nil,
+		ledNon: x.ledNon, ledExcl: x.ledExcl}
 	if v := x.b.GetVars(); v != nil && v.Killed != nil {
 		s.kill = atomic.LoadUint32(v.Killed)
 	}
@@ -262,12 +271,34 @@ func errClass(w *world, err error) string {
 	return "other"
 }
 
+// budgetExceeded: is the budget used up according to the harness ledger (not the implementation's counters)?
 func budgetExceeded(s snap, name string) bool {
 	ex := false
 	if l, ok := retry.VerifSleepExcluded(name); ok {
-		ex = s.excl >= l && s.excl >= s.max
+		ex = s.ledExcl >= l && s.ledExcl >= s.max
 	}
-	return s.max > 0 && (s.total-s.excl >= s.max || ex)
+	return s.max > 0 && (s.ledNon >= s.max || ex)
+}
+
+// ledgerCheck cross-checks the implementation's counters against the harness ledger ("" = consistent).
+func ledgerCheck(x *bo) string {
+	s := takeSnap(x)
+	switch {
+	case s.total != x.ledNon+x.ledExcl:
+		return fmt.Sprintf("FAIL accounting-ledger total=%d observed=%d", s.total, x.ledNon+x.ledExcl)
+	case s.excl != x.ledExcl:
+		return fmt.Sprintf("FAIL accounting-ledger excluded=%d observed=%d", s.excl, x.ledExcl)
+	case showMap(s.ms) != showMap(x.ledMS):
+		return "FAIL accounting-ledger sleepMS=" + showMap(s.ms) + " observed=" + showMap(x.ledMS)
+	case showMap(s.times) != showMap(x.ledTimes):
+		return "FAIL accounting-ledger times=" + showMap(s.times) + " observed=" + showMap(x.ledTimes)
+	}
+	return ""
+}
+
+func (x *bo) inheritLedger(src *bo) {
+	x.ledNon, x.ledExcl = src.ledNon, src.ledExcl
+	x.ledMS, x.ledTimes = copyMap(src.ledMS), copyMap(src.ledTimes)
 }
 
 // wantLongest: error classes the property text allows on exhaustion, computed from the implementation's own
@@ -337,8 +368,18 @@ func withAdd(m map[string]int, k string, d int) map[string]int {
 	return o
 }
 
-// verdict: the property's oracle evaluated on the implementation's own observable values.
+// verdict: the property's oracle evaluated on the implementation's own observable values and the harness ledger.
 func (w *world) verdict(l *lastRec) string {
+	if v := w.verdict1(l); v != "ok" {
+		return v
+	}
+	if l.ledger != "" {
+		return l.ledger
+	}
+	return "ok"
+}
+
+func (w *world) verdict1(l *lastRec) string {
 	switch l.kind {
 	case "bo":
 		b, b2 := l.pre, l.post
@@ -565,7 +606,25 @@ func exec(line string) (string, string) {
 				err = x.b.BackoffWithCfgAndMaxSleep(ci.cfg, m, callerErr)
 			}
 			l.post = takeSnap(x)
-			l.real = l.post.total - l.pre.total
+			// the sleep as observed: the closure's logged sleep, cut by the per-call maximum (not the counters' delta)
+			l.real = 0
+			if cap0.got {
+				l.real = cap0.sleep
+				if m >= 0 && l.real > m {
+					l.real = m
+				}
+				if _, ok := retry.VerifSleepExcluded(ci.name); ok {
+					x.ledExcl += l.real
+				} else {
+					x.ledNon += l.real
+				}
+				if x.ledMS == nil {
+					x.ledMS, x.ledTimes = map[string]int{}, map[string]int{}
+				}
+				x.ledMS[ci.name] += l.real
+				x.ledTimes[ci.name]++
+			}
+			l.ledger = ledgerCheck(x)
 			l.cut = cap0.got && m >= 0 && cap0.sleep > m
 			l.obsBase, l.obsAtt = cap0.base, cap0.attempts
 			sleepTok, errTok := 0, "-"
@@ -631,6 +690,8 @@ func exec(line string) (string, string) {
 				c = w.newBo(nb, cancel, nil, id)
 			}
 			w.bs[c].tainted = x.tainted
+			w.bs[c].inheritLedger(x)
+			l.ledger = ledgerCheck(w.bs[c])
 			l.post = takeSnap(x)
 			l.child = takeSnap(w.bs[c])
 			l.hasChild = true
@@ -653,10 +714,12 @@ func exec(line string) (string, string) {
 			if w.isAncestor(t, fo) {
 				l.res = "merged"
 				x.tainted = y.tainted || l.pre2.max <= 0 || l.pre2.max > l.pre.max
+				x.inheritLedger(y)
 				y.retired = true
 			} else {
 				l.res = "ignored"
 			}
+			l.ledger = ledgerCheck(x)
 			w.last = l
 			return l.res
 		case f[0] == "rst" && len(f) == 2:
@@ -670,6 +733,7 @@ func exec(line string) (string, string) {
 			}
 			x.b.Reset()
 			x.tainted = false
+			x.ledNon, x.ledExcl = 0, 0
 			return "done"
 		case f[0] == "rstmax" && len(f) == 3:
 			id, ok1 := atoi(f[1])
@@ -683,6 +747,7 @@ func exec(line string) (string, string) {
 			}
 			x.b.ResetMaxSleep(n)
 			x.tainted = false
+			x.ledNon, x.ledExcl = 0, 0
 			return "done"
 		case f[0] == "cancel" && len(f) == 2:
 			id, ok := atoi(f[1])
@@ -746,18 +811,22 @@ func exec(line string) (string, string) {
 				return "bad"
 			}
 			s := takeSnap(x)
+			if lc := ledgerCheck(x); lc != "" {
+				return lc
+			}
 			if x.tainted || s.max <= 0 {
 				return "ok"
 			}
-			if !(s.total-s.excl < s.max+mx) {
-				return fmt.Sprintf("FAIL budget total=%d excl=%d max=%d", s.total, s.excl, s.max)
+			// judged on the sleeps the harness observed, not on GetTotalSleep
+			if !(x.ledNon < s.max+mx) {
+				return fmt.Sprintf("FAIL budget slept=%d excluded-slept=%d max=%d", x.ledNon, x.ledExcl, s.max)
 			}
 			lim := retry.VerifSleepExcludedMax()
 			if s.max > lim {
 				lim = s.max
 			}
-			if !(s.excl < lim+mx) {
-				return fmt.Sprintf("FAIL excluded-budget excl=%d max=%d", s.excl, s.max)
+			if !(x.ledExcl < lim+mx) {
+				return fmt.Sprintf("FAIL excluded-budget excluded-slept=%d max=%d", x.ledExcl, s.max)
 			}
 			return "ok"
 		}
@@ -788,7 +857,7 @@ func (g *gen) do(line string) string {
 		g.run.Count("bo:" + strings.Fields(res)[0])
 		g.run.Count("cfg:" + f[2])
 		if l := w.last; l != nil && l.kind == "bo" && l.res == "exceeded" {
-			if l.pre.total-l.pre.excl >= l.pre.max {
+			if l.pre.ledNon >= l.pre.max {
 				g.run.Count("exceeded:budget")
 			} else {
 				g.run.Count("exceeded:excluded-limit")
@@ -1081,6 +1150,78 @@ func (g *gen) excludedCase(n int, real bool) {
 	g.do(fmt.Sprintf("p-budget 0 %d", g.maxCap))
 }
 
+// resetCase: excluded-kind back-offs, then Reset / ResetMaxSleep, then ordinary back-offs until the budget is exhausted
+// (on the reset back-offer itself or on a clone / fork of it): the stage after the reset must start from zero in BOTH
+// counters.
+func (g *gen) resetCase(n int) {
+	g.run.Comment("case " + strconv.Itoa(n))
+	g.do("reset")
+	g.idents = nil
+	g.maxCap = 10000
+	budget := []int{100, 200, 500, 2000}[g.r.Intn(4)]
+	switch g.r.Intn(3) {
+	case 0:
+		g.do(fmt.Sprintf("new plain %d", budget))
+	case 1:
+		g.do(fmt.Sprintf("new nil %d", budget))
+	default:
+		g.do(fmt.Sprintf("new vars %d 10 %d", budget, 1+g.r.Intn(2)))
+	}
+	id := 0
+	ordinary := []string{"regionMiss", "txnLock", "tikvRPC", "pdRPC", "staleCommand", "txnLockFast"}
+	bo := func(ident string) string {
+		if ci := w.findCfg(ident); ci.cap > g.maxCap {
+			g.maxCap = ci.cap
+		}
+		res := g.do(fmt.Sprintf("bo %d %s %d 0 -", id, ident, []int{-1, -1, -1, 100000}[g.r.Intn(4)]))
+		g.do("p-last")
+		return res
+	}
+	stages := 1 + g.r.Intn(2)
+	for st := 0; st < stages; st++ {
+		for i := 1 + g.r.Intn(4); i > 0; i-- {
+			bo("tikvServerBusy")
+			if g.r.Chance(25) {
+				bo(ordinary[g.r.Intn(len(ordinary))])
+			}
+		}
+		g.do(fmt.Sprintf("p-budget %d %d", id, g.maxCap))
+		if g.r.Bool() {
+			g.do(fmt.Sprintf("rst %d", id))
+		} else {
+			g.do(fmt.Sprintf("rstmax %d %d", id, []int{100, 200, 500}[g.r.Intn(3)]))
+		}
+		g.do(fmt.Sprintf("st %d", id))
+		g.do(fmt.Sprintf("p-budget %d %d", id, g.maxCap))
+		switch g.r.Intn(4) {
+		case 0:
+			g.do(fmt.Sprintf("clone %d", id))
+			g.do("p-last")
+			id = len(w.bs) - 1
+		case 1:
+			g.do(fmt.Sprintf("fork %d", id))
+			g.do("p-last")
+			id = len(w.bs) - 1
+		}
+		kind := ordinary[g.r.Intn(len(ordinary))]
+		for i := 0; i < 60; i++ {
+			k := kind
+			if g.r.Chance(20) {
+				k = ordinary[g.r.Intn(len(ordinary))]
+			}
+			res := bo(k)
+			if i%4 == 3 {
+				g.do(fmt.Sprintf("p-budget %d %d", id, g.maxCap))
+			}
+			if strings.HasPrefix(res, "exceeded") {
+				break
+			}
+		}
+		g.do(fmt.Sprintf("st %d", id))
+		g.do(fmt.Sprintf("p-budget %d %d", id, g.maxCap))
+	}
+}
+
 func main() {
 	util.EnableFailpoints()
 	if err := failpoint.Enable("tikvclient/fastBackoffBySkipSleep", "return"); err != nil {
@@ -1113,6 +1254,10 @@ func main() {
 		}
 		if n%4 == 1 {
 			g.forkJoinCase(n, l)
+			continue
+		}
+		if n%10 == 3 {
+			g.resetCase(n)
 			continue
 		}
 		if n%50 == 2 {
